@@ -10,6 +10,7 @@ ENGINES = [
     {'name': 'E2 recorder', 'path': 'vf/recorder.py', 'kind_free_text': 'event recorder wrapped around Stream.update/_emit from outside the repository'},
     {'name': 'E3 probes', 'path': 'vf/probes.py', 'kind_free_text': 'instrumented RefCounter (real arithmetic, observed), recording consumers'},
     {'name': 'E4 reference interpreter', 'path': 'vf/model.py', 'kind_free_text': 'executable list-level model of the node catalogue used as oracle over recorded histories'},
+    {'name': 'E5b async runner', 'path': 'vf/asyncrun.py', 'kind_free_text': 'async case runner (producers, consumers, bounded settle) and local/edge oracles'},
     {'name': 'E5 program generator', 'path': 'vf/progs.py', 'kind_free_text': 'seeded generator of pipeline programs and input interleavings'},
 ]
 
@@ -48,6 +49,15 @@ add('C16', 'fault_enumeration', 'runtime monitoring with fault injection: every 
     'asynchronous modes; oracle: identity of the exception at the caller, state of the failing node vs reference node on '
     'the non-failing inputs, no completion signal for failed elements.',
     'Directly connected nodes only; reference node semantics from Appendix A.', 'DESIGN.md#C16')
+
+add('C02', 'exploration', 'runtime monitoring on a virtual-time event loop: local per-node oracle + edge oracle over the recorded history',
+    'Generated pipelines with the lossless asynchronous nodes run on a virtual-time asyncio loop (the real tornado/streamz '
+    'code, unmodified) with producers and consumers whose arrival/completion instants are drawn to force coincidences and '
+    'out-of-order completions; consumers are plain functions, native coroutines and Future-returning functions. Every '
+    'node output is checked against its documented meaning on the inputs it actually received, every edge delivers all, '
+    'every sink awaitable is awaited exactly once; loop-level exceptions are violations.',
+    'Schedules are those reachable by varying arrival/completion instants under asyncio FIFO discipline; virtual clock.',
+    'DESIGN.md#C02')
 
 
 def main():
